@@ -158,8 +158,14 @@ RCP<const Basic> conjugate(const RCP<const Basic> &arg)
     if (is_a<Mul>(*arg)) {
         const map_basic_basic &dict = down_cast<const Mul &>(*arg).get_dict();
         map_basic_basic new_dict;
-        RCP<const Number> coef = rcp_static_cast<const Number>(
-            conjugate(down_cast<const Mul &>(*arg).get_coef()));
+        // conjugate(zoo) stays unevaluated (not a Number): multiply it in at the end
+        RCP<const Basic> conj_coef
+            = conjugate(down_cast<const Mul &>(*arg).get_coef());
+        RCP<const Number> coef = one;
+        if (is_a_Number(*conj_coef)) {
+            coef = rcp_static_cast<const Number>(conj_coef);
+            conj_coef = one;
+        }
         for (const auto &p : dict) {
             if (is_a<Integer>(*p.second)) {
                 Mul::dict_add_term_new(outArg(coef), new_dict, p.second,
@@ -170,7 +176,7 @@ RCP<const Basic> conjugate(const RCP<const Basic> &arg)
                     conjugate(Mul::from_dict(one, {{p.first, p.second}})));
             }
         }
-        return Mul::from_dict(coef, std::move(new_dict));
+        return mul(conj_coef, Mul::from_dict(coef, std::move(new_dict)));
     }
     if (is_a<Pow>(*arg)) {
         RCP<const Basic> base = down_cast<const Pow &>(*arg).get_base();
